@@ -303,6 +303,8 @@ def forbidden_scan():
 def cbytes(b):
     """Render bytes as a Gallina term of type list N."""
     b = bytes(b)
+    if len(b) > 4000:          # coqc's parser recurses on a list literal: long inputs are written as a concatenation of pieces
+        return "(concat [" + ";".join(cbytes(b[i:i + 2000]) for i in range(0, len(b), 2000)) + "])"
     if all(32 <= c < 127 and c != 34 for c in b):
         return '(bs "%s")' % b.decode("ascii")
     return "[" + ";".join(str(c) for c in b) + "]%N"
